@@ -116,6 +116,7 @@ theorem confirm_error_at_entry (mandatory : Bool) (s : St) (sched : List (List E
 
 /-! ## Tie obligations -/
 theorem gen_flags : Gen.RpcWait.defersMessageError = true ∧ Gen.RpcWait.deferralRequiresOpen = true ∧
+    Gen.RpcWait.keepsDeferredError = true ∧
     Gen.ChanErr.closeReasonAtFront = true := by decide
 
 theorem skel_Basic__publish_confirm : Gen.Skel.Basic__publish_confirm =
